@@ -168,10 +168,11 @@ impl Gen {
     }
 
     pub fn opt(&mut self) -> OPT<'static> {
-        let n = self.rng.below(4) as usize;
+        // mostly a few options, now and then many (the list is bounded by RDLENGTH only)
+        let n = if self.rng.chance(1, 12) { *self.rng.pick(&[31usize, 32, 33, 64, 200]) } else { self.rng.below(4) as usize };
         OPT {
             opt_codes: (0..n)
-                .map(|_| OPTCode { code: if self.rng.chance(1, 2) { *self.rng.pick(&[0u16, 1, 2, 3, 5, 6, 7, 8, 9, 10, 11, 12, 13, 14, 15, 16, 17, 65001]) } else { self.u16() }, data: self.blob().into() })
+                .map(|_| OPTCode { code: if self.rng.chance(1, 2) { *self.rng.pick(&[0u16, 1, 2, 3, 5, 6, 7, 8, 9, 10, 11, 12, 13, 14, 15, 16, 17, 65001]) } else { self.u16() }, data: if n > 8 { let l = self.rng.below(3) as usize; self.rng.bytes(l) } else { self.blob() }.into() })
                 .collect(),
             udp_packet_size: *self.rng.pick(&[0u16, 512, 1232, 4096, 65535]),
             version: *self.rng.pick(&[0u8, 0, 0, 1, 127, 255]),
@@ -331,7 +332,9 @@ impl Gen {
                             2 => 32,
                             _ => self.rng.range(1, 8) as usize,
                         };
-                        TypeBitMap { window_block: w as u8, bitmap: self.rng.bytes(len).into() }
+                        let mut bm = self.rng.bytes(len);
+                        if self.rng.chance(1, 4) { let z = (self.rng.below(3) as usize + 1).min(bm.len()); let l = bm.len(); for x in &mut bm[l - z..] { *x = 0; } }
+                        TypeBitMap { window_block: w as u8, bitmap: bm.into() }
                     })
                     .collect();
                 RData::NSEC(NSEC { next_name: self.name(), type_bit_maps: maps })
@@ -482,6 +485,19 @@ impl Gen {
                 continue;
             }
             p.additional_records.push(r);
+        }
+        // now and then the same record twice (next to each other or apart), the second time with another
+        // TTL or cache-flush bit: entries are kept one by one, however alike
+        if self.rng.chance(1, 6) {
+            let which = self.rng.below(3);
+            let sec = match which { 0 => &mut p.answers, 1 => &mut p.name_servers, _ => &mut p.additional_records };
+            if let Some(first) = sec.iter().find(|x| !matches!(x.rdata, RData::OPT(_))).cloned() {
+                let mut twin = first.clone();
+                if self.rng.chance(1, 2) { twin.ttl = twin.ttl.wrapping_add(1); }
+                twin.cache_flush = self.rng.chance(1, 2);
+                let at = if self.rng.chance(1, 2) { sec.iter().position(|x| x == &first).unwrap() + 1 } else { sec.len() };
+                sec.insert(at, twin);
+            }
         }
         p
     }
